@@ -27,7 +27,7 @@ META = dict(
          "missing observation -> flag in {MISSING} (+UNKNOWN where the test is undefined irrespective of the value: "
          "spike end points, first speed point, single-point density, climatology point no member matches, attenuated "
          "window below the minimum); present observation flagged MISSING -> a needed input (own depth/coordinates, the "
-         "Scale: 3000-point series per test (ndarray and masked), the same long array refilled in place between two calls, and a longer record with gaps around index n before the judged n-point record (n=600, 1500); 3000-level density profiles and 2500-fix tracks. neighbour it is differenced against) must be missing. + 2-D inputs in C / Fortran / transposed layout (NaN and masked) for the pointwise tests: MISSING must sit on the missing elements. non-trivial = the case contains a missing marker",
+         "neighbour it is differenced against) must be missing. + 2-D inputs in C / Fortran / transposed layout (NaN and masked) for the pointwise tests: MISSING must sit on the missing elements. Scale: 3000-point series per test (ndarray and masked), the same long array refilled in place between two calls, and a longer record with gaps around index n before the judged n-point record (n=600, 1500); 3000-level density profiles and 2500-fix tracks. non-trivial = the case contains a missing marker",
     bounds={"quick": {"max_len": 4}, "thorough": {"max_len": 6}},
     not_judged=["which of GOOD/SUSPECT/FAIL a present point gets (C03-C14)",
                 "positions with exactly one coordinate missing count as present (C14 makes them FAIL)"],
